@@ -319,6 +319,7 @@ func main() {
 	if hlib.Pre() {
 		// only the section that puts questions to the model runs in the request-collecting phase
 		craftSection(o, seed)
+		edgeSection(o, seed)
 		return
 	}
 	scalarSection(o, seed)
@@ -326,6 +327,7 @@ func main() {
 	algSection(o, seed)
 	sampleSection(o, seed)
 	craftSection(o, seed)
+	edgeSection(o, seed)
 	apiSection(o, seed)
 	compositeSection(o, seed)
 	if len(o.Violation) > 0 {
